@@ -11,12 +11,13 @@ class World:
     def __init__(s, mod, nmax, timeout_ms=60000, max_visits=None):
         s.mod = mod; s.nmax = nmax
         s.ex = Exec(mod, timeout_ms); s.ex.summaries.update(SUMMARIES)
-        s.ex.max_block_visits = max_visits or (nmax + 4)
+        s.ex.max_block_visits = max(64, max_visits or 0)   # loops over grid intervals are bounded by the path condition (n <= nmax); constant-trip loops need head-room
         s.st = State()
         lst = s.st.alloc(1, 'libc_single_threaded', 'global')
         s.ex.poke(s.st, lst, 0, bv(0, 8), 1)          # "the process has threads": refcounts take the atomic path
         s.ex.gobj['@__libc_single_threaded'] = lst.base
         s.lst = lst
+        s.ex.install_globals(s.st)
         s.vars = {}
         S = mod.types[SUPPORT_T]; s.sup_offs, s.sup_size, _ = S.layout(mod)
         G = mod.types[GRID_T]; s.grid_size = G.size(mod)
@@ -65,6 +66,20 @@ class World:
         ex.poke(st, sup, s.sup_offs[1], start); ex.poke(st, sup, s.sup_offs[2], end)
         if invariant: s.assume(valid_window(start, end, grid['n']))
         return dict(obj=sup, start=start, end=end, grid=grid, name=name)
+
+    def mk_spline(s, name, grid, order, start=None, end=None, kind='input'):
+        """A Spline<double,order> object: {Support (32 bytes), std::vector<std::array<double,order+1>> (24 bytes)} with one
+        coefficient array per interval of the (symbolic) window; coefficient values are unconstrained bytes."""
+        ex, st = s.ex, s.st
+        csz = 8 * (order + 1)
+        start = start if start is not None else s.var(name + '_start'); end = end if end is not None else s.var(name + '_end')
+        coef = st.alloc(csz * max(1, s.nmax - 1), name + '_coefficients', kind); sp = st.alloc(s.sup_size + 24, name, kind)
+        nint = z3.If(z3.UGE(end - start, 2), end - start - 1, bv(0)); coef.lsize = csz * nint
+        ex.poke(st, sp, s.sup_offs[0], bv(grid['vec'].base)); ex.poke(st, sp, s.sup_offs[0] + 8, bv(grid['ctrl'].base))
+        ex.poke(st, sp, s.sup_offs[1], start); ex.poke(st, sp, s.sup_offs[2], end)
+        ex.poke(st, sp, s.sup_size, bv(coef.base)); ex.poke(st, sp, s.sup_size + 8, bv(coef.base) + csz * nint); ex.poke(st, sp, s.sup_size + 16, bv(coef.base) + csz * nint)
+        s.assume(valid_window(start, end, grid['n']))
+        return dict(obj=sp, coef=coef, start=start, end=end, grid=grid, order=order, name=name, nint=nint)
 
     def out(s, name, nbytes=8):
         return s.st.alloc(nbytes, name, 'out')
